@@ -277,7 +277,9 @@ static void prop_hierarchy(Tape &t, Ctx &c) {
     // per aggregate with a QR object per thread, so which thread handled the previous aggregate must not matter. The depth is
     // capped there (a step need not shrink the level, listed finding F-nullspace-no-shrink of C03).
     int ns_cols = 0; std::vector<double> ns;
-    if (ci != 2 && t.chance(1, 3)) {
+    // not for emin: its setup is thread-independent only up to rounding, and with several near-null-space vectors its coarse
+    // operators are often numerically singular (actions ~1e65), where a rounding-level comparison means nothing (seed-12345 alarm)
+    if (ci != 2 && ci != 3 && t.chance(1, 3)) {
         ns_cols = static_cast<int>(t.u(2, 3));
         ns.resize(static_cast<size_t>(g.n) * ns_cols);
         for (int i = 0; i < g.n; ++i) for (int v = 0; v < ns_cols; ++v) ns[i * ns_cols + v] = v == 0 ? 1.0 : t.uni(-1, 1) + (v == 1 ? i : 0.1 * i * i) / std::max(1, g.n);
